@@ -68,8 +68,10 @@ type c02Node struct {
 	TagFilter   bool     `json:"tag_filter,omitempty"`
 	AttachPolls int      `json:"attach_polls,omitempty"`
 	DetachPolls int      `json:"detach_polls,omitempty"`
-	CloudENICut int      `json:"cloud_eni_cut,omitempty"` // the cloud admits this many interfaces fewer than declared
-	Synced      bool     `json:"synced,omitempty"`        // initial record carries a future NextSyncOpenAPITime
+	CloudENICut int      `json:"cloud_eni_cut,omitempty"`    // the cloud admits this many interfaces fewer than declared
+	Synced      bool     `json:"synced,omitempty"`           // initial record carries a future NextSyncOpenAPITime
+	Lenient     bool     `json:"lenient_describe,omitempty"` // a by-id Describe with an instance id also answers interfaces attached to no instance
+	NoRuntime   bool     `json:"no_runtime,omitempty"`       // the node's NodeRuntime object does not exist until the daemon first reports (control plane upgraded first)
 }
 
 // c02PreBind is one (possibly partial) pod<->address relation in the initial state.
@@ -125,6 +127,18 @@ const (
 )
 
 var c02FaultCodes = []string{"", "EniPerInstanceLimitExceeded", "InvalidVSwitchId.IpNotEnough", "QuotaExceeded.PrivateIpAddress", "Throttling", "InvalidOperation.Ipv4CountExceeded", "InvalidOperation.Ipv6CountExceeded", "InvalidOperation.InvalidEniState"}
+
+// c02GenFaults draws one fault; a throttled Delete may persist for up to three calls.
+func c02GenFaults(t *rapid.T, eflo bool) []cloudctl.Fault {
+	f := c02GenFault(t, eflo)
+	out := []cloudctl.Fault{f}
+	if f.Kind == cloudctl.KDelete && f.Mode == cloudctl.FBefore {
+		for i := rapid.IntRange(0, 2).Draw(t, "persist"); i > 0; i-- {
+			out = append(out, f)
+		}
+	}
+	return out
+}
 
 func c02GenFault(t *rapid.T, eflo bool) cloudctl.Fault {
 	kinds := []string{cloudctl.KCreate, cloudctl.KCreate, cloudctl.KCreate, cloudctl.KAttach, cloudctl.KAttach, cloudctl.KAttach, cloudctl.KWait, cloudctl.KWait,
@@ -199,6 +213,13 @@ func c02GenNode(t *rapid.T, mode string) c02Node {
 		n.CloudENICut = 1
 	}
 	n.Synced = rapid.IntRange(0, 3).Draw(t, "synced") == 0
+	// the real API's answer to "describe id X of instance I" for a detached X cannot be
+	// confirmed offline: quantify over both semantics
+	n.Lenient = rapid.Bool().Draw(t, "lenient")
+	if mode == "C02" {
+		// node taken over from a previous version: the daemon has not published a NodeRuntime yet
+		n.NoRuntime = rapid.IntRange(0, 3).Draw(t, "noruntime") == 0
+	}
 	return n
 }
 
@@ -237,6 +258,9 @@ func c02GenPre(t *rapid.T, n c02Node, nSlots int, mode string) []c02PreENI {
 				Rec:     rapid.SampledFrom([]string{"full", "full", "nouid", "none", "v4only", "v6only"}).Draw(t, "brec"),
 				Alive:   rapid.IntRange(0, 4).Draw(t, "alive") > 0,
 				Reports: rapid.SampledFrom([]string{"both", "both", "both", "v4", "v6", "none"}).Draw(t, "reports"),
+			}
+			if n.NoRuntime && rapid.IntRange(0, 1).Draw(t, "legacy") == 0 {
+				b.Rec, b.Alive = "nouid", true // bindings written before PodUID existed, pods still running
 			}
 			p.Binds = append(p.Binds, b)
 		}
@@ -303,12 +327,12 @@ func c02GenOp(t *rapid.T, mode string, n c02Node, nSlots int) c02Op {
 	case "cloudfault":
 		nf := rapid.IntRange(1, 3).Draw(t, "nf")
 		for i := 0; i < nf; i++ {
-			o.Faults = append(o.Faults, c02GenFault(t, n.EFLO))
+			o.Faults = append(o.Faults, c02GenFaults(t, n.EFLO)...)
 		}
 	case "episode": // faults (cloud and/or API server) placed right before demand arrives
 		nf := rapid.IntRange(1, 3).Draw(t, "nf")
 		for i := 0; i < nf; i++ {
-			o.Faults = append(o.Faults, c02GenFault(t, n.EFLO))
+			o.Faults = append(o.Faults, c02GenFaults(t, n.EFLO)...)
 		}
 		o.API = rapid.SampledFrom([]string{"", "", "", "conflict", "statuserr", "statusafter"}).Draw(t, "api")
 		o.A = rapid.IntRange(0, nSlots-1).Draw(t, "slot")
@@ -453,6 +477,7 @@ func c02NewWorld(c *vt.Ctx, s c02Scenario) *c02World {
 	// ---- cloud
 	w.cloud = cloudctl.New()
 	w.cloud.AttachPolls, w.cloud.DetachPolls = n.AttachPolls, n.DetachPolls
+	w.cloud.LenientDescribeByID = n.Lenient
 	var vswIDs []string
 	for i, v := range n.VSw {
 		id := fmt.Sprintf("vsw-%d", i)
@@ -521,7 +546,9 @@ func c02NewWorld(c *vt.Ctx, s c02Scenario) *c02World {
 	node := &networkv1beta1.Node{ObjectMeta: metav1.ObjectMeta{Name: c02NodeName, Labels: labels, Finalizers: []string{finalizer}}, Spec: spec}
 	w.must(w.base.Create(w.ctx, node))
 	w.must(w.base.Create(w.ctx, &corev1.Node{ObjectMeta: metav1.ObjectMeta{Name: c02NodeName, Labels: labels}}))
-	w.must(w.base.Create(w.ctx, &networkv1beta1.NodeRuntime{ObjectMeta: metav1.ObjectMeta{Name: c02NodeName}}))
+	if !n.NoRuntime {
+		w.must(w.base.Create(w.ctx, &networkv1beta1.NodeRuntime{ObjectMeta: metav1.ObjectMeta{Name: c02NodeName}}))
+	}
 
 	w.initialState(node)
 
@@ -615,7 +642,13 @@ func (w *c02World) liveSorted() []*c02LivePod {
 
 func (w *c02World) setRuntime(uid, podID string, st networkv1beta1.CNIStatus) {
 	nr := &networkv1beta1.NodeRuntime{}
-	w.must(w.base.Get(w.ctx, client.ObjectKey{Name: c02NodeName}, nr))
+	if err := w.base.Get(w.ctx, client.ObjectKey{Name: c02NodeName}, nr); k8sErr.IsNotFound(err) {
+		// first report of the daemon: the object appears
+		w.must(w.base.Create(w.ctx, &networkv1beta1.NodeRuntime{ObjectMeta: metav1.ObjectMeta{Name: c02NodeName}}))
+		w.must(w.base.Get(w.ctx, client.ObjectKey{Name: c02NodeName}, nr))
+	} else {
+		w.must(err)
+	}
 	if nr.Status.Pods == nil {
 		nr.Status.Pods = map[string]*networkv1beta1.RuntimePodStatus{}
 	}
@@ -792,7 +825,7 @@ func (w *c02World) initialPods(p c02PreENI, e *cloudctl.ENI, r *networkv1beta1.N
 			}
 			lp := w.createPod(b.Slot, r4, r6)
 			uid = lp.uid
-			if r4 != "" || r6 != "" {
+			if (r4 != "" || r6 != "") && !n.NoRuntime {
 				w.setRuntime(uid, w.podID(b.Slot), networkv1beta1.CNIStatusInitial)
 			}
 		} else {
@@ -800,7 +833,9 @@ func (w *c02World) initialPods(p c02PreENI, e *cloudctl.ENI, r *networkv1beta1.N
 			w.everPod[w.podID(b.Slot)] = true
 			g := &c02Gone{uid: uid}
 			w.gone = append(w.gone, g)
-			w.setRuntime(uid, w.podID(b.Slot), networkv1beta1.CNIStatusInitial)
+			if !n.NoRuntime {
+				w.setRuntime(uid, w.podID(b.Slot), networkv1beta1.CNIStatusInitial)
+			}
 		}
 		if r == nil || b.Rec == "none" {
 			continue
@@ -946,8 +981,10 @@ func c02CheckRecord(prev, cur map[string]*networkv1beta1.NetworkInterface, pods 
 	type podB struct{ eni4, a4, eni6, a6 string }
 	byPod := map[string]*podB{}
 	prevPod := map[string]string{} // fam|addr -> pod
+	prevValid := map[string]bool{} // fam|addr -> address Valid on an interface not marked Deleting
 	for _, b := range c02Bindings(prev) {
 		prevPod[c02Fam(b.v6)+"|"+b.addr] = b.pod
+		prevValid[c02Fam(b.v6)+"|"+b.addr] = b.ipStatus == networkv1beta1.IPStatusValid && b.eniStatus != aliyunClient.ENIStatusDeleting
 	}
 	for _, b := range c02Bindings(cur) {
 		key := c02Fam(b.v6) + "|" + b.addr
@@ -978,6 +1015,16 @@ func c02CheckRecord(prev, cur map[string]*networkv1beta1.NetworkInterface, pods 
 		}
 		// new binding?
 		if prevPod[key] == b.pod {
+			// (iv) kept binding: the pass must not schedule the address (or its interface)
+			// of a pod that still exists for deletion
+			if pv := pods[b.pod]; pv != nil && pv.eligible && prevValid[key] {
+				if b.ipStatus == networkv1beta1.IPStatusDeleting {
+					return fmt.Sprintf("(iv) address %s on %s is bound to pod %s, which still exists, and was scheduled for deletion by this pass", b.addr, b.eni, b.pod), facts
+				}
+				if b.eniStatus == aliyunClient.ENIStatusDeleting {
+					return fmt.Sprintf("(iv) interface %s was scheduled for deletion by this pass although its address %s is bound to pod %s, which still exists", b.eni, b.addr, b.pod), facts
+				}
+			}
 			continue
 		}
 		facts["new-binding"] = true
